@@ -21,9 +21,9 @@ from pv.codec import build
 
 ASSUMPTIONS = [
     'parameter names are a,b,c,d (or a,ab,abc,abcd: prefixes of one another), *va, **vk; extra / undeclared keywords x,y,z, b,bc,abcde,a_,v, '
-    'value,exc,cache,types,repeat (spelled like wrapper parameters), k000..k299 (never "axis": loops pops an "axis" keyword by design, never "self")',
-    'a keyword named "function" is never passed to pyg_base.getcallargs directly: getcallargs(function, *args, **kwargs) cannot accept it '
-    '(inspect.getcallargs can: its first parameter is positional-only) - reported as a candidate defect, kept out by construction',
+    'function,value,exc,cache,types,repeat (spelled like wrapper / getcallargs parameters), k000..k299 (never "axis": loops pops an "axis" keyword by design, never "self")',
+    'a keyword named "function" is an ordinary keyword for **vk functions, also in direct getcallargs / call_with_callargs calls (finding F20, '
+    'fixed: getcallargs takes the function positionally, as inspect.getcallargs does); replay replays/C18/F20-*.json',
     'defaults are the strings Da..Dd, or None/0/\'\'/False, or (same_code) drawn from None,0,1,\'\',D,E,False,[],[1]',
     'argument values: ints (no bools), strings, None, lists of ints, dicts str->int - a universe on which the cache key normalisation '
     'is injective (no list/tuple twins, no 1/1.0/True, no sets); the empty dict is kept out of cache histories because cache keys '
@@ -45,8 +45,8 @@ NAMES = ['a', 'b', 'c', 'd']
 NESTED = ['a', 'ab', 'abc', 'abcd']          # naming scheme 1: every name is a prefix of the next
 EXTRA_KW = ['x', 'y', 'z']
 # keywords for **vk that are spelled like parameters of the wrappers themselves
-# ('function' is left out: pyg_base.getcallargs(function, *args, **kwargs) cannot be given a keyword of that name - see ASSUMPTIONS)
-WRAPPER_WORDS = ['value', 'exc', 'cache', 'types', 'repeat']
+# and like the first parameter of getcallargs / call_with_callargs themselves ('function', finding F20)
+WRAPPER_WORDS = ['function', 'value', 'exc', 'cache', 'types', 'repeat']
 # undeclared / extra keywords for naming scheme 1: sub-, super- and near-strings of the declared names
 NESTED_EXTRA = ['b', 'bc', 'abcde', 'a_', 'v', 'x']
 FALSY_DEFAULTS = [None, 0, '', False]
@@ -563,6 +563,8 @@ def run_transparent(spec):
             cls.append('falsy_default_relied_on')
         if any(k in WRAPPER_WORDS for k, _ in kwargs):
             cls.append('keyword_named_like_wrapper_parameter')
+        if any(k == 'function' for k, _ in kwargs):
+            cls.append('keyword_named_function')
         if len([k for k, _ in kwargs if k not in pnames(s)]) >= 2:
             cls.append('two_extra_keywords_in_order')
     if spec.get('two_step'):
@@ -806,7 +808,7 @@ def s_kws(draw):
     mode = 'declared_only' if vk else draw(st.sampled_from(['undeclared', 'undeclared', 'undeclared', 'duplicate', 'declared_only']))
     extra = []
     if mode == 'undeclared':
-        names = extra_names(s) + ['va', 'vk', 'function', 'e'] + [nm for nm in (NESTED if s.get('nm') else NAMES)[n:]] + ([] if s.get('nm') else WRAPPER_WORDS[:3])
+        names = extra_names(s) + ['va', 'vk', 'e'] + [nm for nm in (NESTED if s.get('nm') else NAMES)[n:]] + (['function'] if s.get('nm') else WRAPPER_WORDS[:4])
         for nm in draw(st.lists(st.sampled_from(names), min_size=1, max_size=3, unique=True)):
             extra.append([nm, draw(_val)])
     if mode == 'duplicate':
@@ -1080,6 +1082,9 @@ GRID_VALUES = {
 }
 
 
+GRID_WORDS = ['function', 'value']     # extra keywords of the 'mixed' value set: spelled like parameters of getcallargs / the wrappers
+
+
 def grid_cases():
     for n in range(5):
         for d in range(n + 1):
@@ -1095,7 +1100,7 @@ def grid_cases():
                                         V = GRID_VALUES[vals]
                                         args = V['pos'][:k] + V['xpos'][:ep]
                                         kwargs = [[NAMES[i], V['kw'][i]] for i, c in zip(range(k, n), choice) if c == 'kw']
-                                        kwargs += [[EXTRA_KW[j], V['xkw'][j]] for j in range(ek)]
+                                        kwargs += [[(GRID_WORDS if vals == 'mixed' else EXTRA_KW)[j], V['xkw'][j]] for j in range(ek)]
                                         yield dict(sig=s, args=args, kwargs=kwargs)
                                         if len(kwargs) >= 2:
                                             yield dict(sig=s, args=args, kwargs=kwargs[::-1])
@@ -1175,6 +1180,8 @@ def run_grid(spec):
         cls.append('nested_names+falsy_defaults')
         if ndef:
             cls.append('falsy_default_relied_on')
+    if any(k == 'function' for k, _ in kwargs):
+        cls.append('keyword_named_function')
     return dict(nt=nkw >= 1 and ndef >= 1, cls=cls)
 
 
@@ -1334,11 +1341,11 @@ SUBS = [
         rule='random signature, random valid call with values from ints/strings/None/lists/dicts, stack of 1-3 of the 11 decorators (repeats allowed), '
              'non-raising f; result == own binding model == direct call, getargspec fields == inspect.getfullargspec(f) before and after the call, '
              'getcallargs / call_with_callargs through the stack; in half the cases the same decorator objects then wrap a second function with '
-             'another signature. A third of the signatures use names that are prefixes of one another (a, ab, abc, abcd), a third defaults None/0/\'\'/False; **vk functions also get keywords spelled like wrapper parameters (value, exc, cache, types, repeat) and the ORDER in which extra keywords reach f is part of its report; class decorators are applied as D(f) or D()(f). In ~30% of the cases f returns a constant None / 0 / False / '' / [] / {} instead of its report; with a cache layer anywhere in the stack the same call is made twice: f evaluated exactly once (counted by side channel), same result. non-trivial = stack of >= 2 decorators, or >= 1 keyword argument and >= 1 default relied on',
+             'another signature. A third of the signatures use names that are prefixes of one another (a, ab, abc, abcd), a third defaults None/0/\'\'/False; **vk functions also get keywords spelled like wrapper parameters (function, value, exc, cache, types, repeat) and the ORDER in which extra keywords reach f is part of its report; class decorators are applied as D(f) or D()(f). In ~30% of the cases f returns a constant None / 0 / False / '' / [] / {} instead of its report; with a cache layer anywhere in the stack the same call is made twice: f evaluated exactly once (counted by side channel), same result. non-trivial = stack of >= 2 decorators, or >= 1 keyword argument and >= 1 default relied on',
         floor=0.5, class_floors={'depth=3': 0.15, 'kw+default': 0.07, 'second_function_same_decorators': 0.15, 'has:cache_func': 0.15, 'has:loops': 0.15,
                                  'has:pd2np': 0.12, 'has:kwargs_support': 0.12, 'has:try_back': 0.15, 'has:try_value': 0.15,
                                  'f_returns_None': 0.08, 'f_returns_falsy': 0.08, 'cached_result_is_None': 0.03, 'cached_result_is_falsy': 0.03,
-                                 'names_prefixes_of_one_another': 0.1, 'two_step_spelling': 0.1, 'keyword_named_like_wrapper_parameter': 0.04,
+                                 'names_prefixes_of_one_another': 0.1, 'two_step_spelling': 0.1, 'keyword_named_like_wrapper_parameter': 0.04, 'keyword_named_function': 0.01,
                                  'two_extra_keywords_in_order': 0.06, 'falsy_default_relied_on': 0.025}),
     Sub('rewrap', lambda tier: s_rewrap(include_known_defect=REWRAP_DEEP), run_rewrap, quick=1500, thorough=20000,
         rule='stack of 1-3 decorators of distinct classes built on f, then wrapped again with a decorator of a class already in the stack (possibly another '
